@@ -709,15 +709,15 @@ func display(computer *ComputedStyle, _ pr.KnownProp, _value pr.CssProperty) pr.
 	float_ := computer.specified.Float
 	position := computer.specified.Position
 	if (!position.Bool && (position.String == "absolute" || position.String == "fixed")) || float_ != "none" || computer.isRootElement() {
-		if value == (pr.Display{"inline-table"}) {
-			return pr.Display{"block", "table"}
-		} else if d := value[0]; value[1] == "" && value[2] == "" && strings.HasPrefix(d, "table-") {
+		if d := value[0]; value[1] == "" && value[2] == "" && strings.HasPrefix(d, "table-") {
 			return pr.Display{"block", "flow"}
 		} else if d == "inline" {
 			if value.Has("list-item") {
 				return pr.Display{"block", "flow", "list-item"}
 			} else {
-				return pr.Display{"block", "flow"}
+				// inline-table -> table, inline-flex -> flex, inline-grid -> grid,
+				// inline-block -> block flow-root: the inner display type is kept
+				return pr.Display{"block", value[1]}
 			}
 		}
 	}
